@@ -10,6 +10,8 @@ import (
 	"bufio"
 	"encoding/hex"
 	"fmt"
+	"io"
+	"log"
 	"os"
 	"strconv"
 	"strings"
@@ -64,6 +66,7 @@ func verifCall(op func([]string) string, args []string) (out string) {
 
 func verifServe() {
 	sharedCache = &sharedCacheType{ListedPackages: newListedPackages()}
+	log.SetOutput(io.Discard)
 	in := bufio.NewReaderSize(os.Stdin, 1<<20)
 	out := bufio.NewWriterSize(os.Stdout, 1<<16)
 	defer out.Flush()
